@@ -225,6 +225,10 @@ void harness(void) {
 /* =================================================================================================================
  * KSI_AbstractAsyncClient_new (+ asyncClient_setDefaultOptions -> setOption on a client WITHOUT cache): establishes Inv(c) */
 #ifdef H_client_new
+/* concrete targets for the guarded call-back calls of the destructors (never taken: the new client has no transport
+ * destructor and no cached handle) */
+void so_never_free(void *p) { __CPROVER_assert(0, "AsyncClient_new: no call-back destructor is run"); }
+int so_never_append(KSI_LIST(KSI_AsyncHandle) *l, KSI_AsyncHandle *h) { __CPROVER_assert(0, "AsyncClient_new: no handle is recycled"); return KSI_INVALID_STATE; }
 void harness(void) {
 	KSI_AsyncClient *c = NULL; int res; size_t v = 0;
 	g_env_now = nondet_ll();
